@@ -191,6 +191,10 @@ def _run(case, modname, devs):
         if mido.backend is not bk:
             return [fail('set_backend-object', 'mido.backend is not the Backend object passed to set_backend', **facts)]
     out = []
+    # looking at the backend (repr, loaded, name, api) is not "needing" the module
+    text = repr(bk) + str(bk.loaded) + str(bk.name) + str(bk.api)
+    if modname not in text or (not case['load'] and not preloaded and 'not loaded' not in text):
+        out.append(fail('repr', f'repr of an unused backend: {text!r}', **facts))
     imported = [e for e in EVENTS[n_before:] if e[0] == 'import']
     if preloaded:
         if len(imported) != 1:
